@@ -127,7 +127,7 @@ func modeAtom(c *eng.Ctx, mode string) string {
 
 func pathAtomEq(p eng.Path, expr string, pol bool) bool {
 	for _, a := range p.Atoms {
-		if a.Expr == expr && a.Pos == pol {
+		if (a.Expr == expr || a.Mirrored() == expr) && a.Pos == pol {
 			return true
 		}
 	}
